@@ -229,8 +229,9 @@ func panicSignature(stderr string) (sig, head string) {
 	// first driver frame after the panic line
 	site := "?"
 	for _, line := range strings.Split(rest, "\n") {
-		if !strings.HasPrefix(line, "github.com/gocql/gocql") || strings.Contains(line, "verifsim") {
-			continue
+		if !strings.HasPrefix(line, "github.com/gocql/gocql") || strings.Contains(line, "verifsim") ||
+			strings.Contains(line, ".parseFrame.func1") {
+			continue // parseFrame's deferred function only re-panics runtime errors
 		}
 		fn := line
 		if i := strings.LastIndex(fn, "("); i > 0 {
@@ -256,7 +257,7 @@ func runChild(scenario string, seed int64, tier string, from, stride, count int,
 	deadline := time.Now().Add(budget)
 	for count > 0 && time.Now().Before(deadline) {
 		left := time.Until(deadline)
-		args := []string{"-test.run", "^TestSim$", "-test.timeout", "0",
+		args := []string{"-test.run", "^TestSim$", "-test.timeout", "0", "-sim.stall=10s",
 			"-sim.scenario=" + scenario, "-sim.seed=" + strconv.FormatInt(seed, 10), "-sim.tier=" + tier,
 			"-sim.from=" + strconv.Itoa(from), "-sim.stride=" + strconv.Itoa(stride), "-sim.count=" + strconv.Itoa(count),
 			"-sim.budget=" + left.String()}
@@ -640,6 +641,7 @@ func cmdCheck(prop string, args []string) {
 
 	// ---- classify ----
 	otherProps := map[string]int{}
+	artefacts := 0
 	type group struct {
 		prop, sig string
 		ex        []*payload
@@ -686,6 +688,12 @@ func cmdCheck(prop string, args []string) {
 			addG(spec.DeadlockProperty, p.Violation.Signature, p)
 		} else if st.Class == "driver-lock-deadlock" {
 			otherProps["(lock deadlock in the driver; reported by the C06/C17 checks)"]++
+		} else if st.Class == "synctest-mutex-artefact" {
+			// a goroutine waited for the simulator while holding a mutex another goroutine
+			// wanted (testing/synctest cannot see through sync.Mutex): the run is abandoned,
+			// it says nothing about the property; tolerated while rare
+			artefacts++
+			os.WriteFile(filepath.Join(verifDir, ".work", "last-stall.txt"), []byte(st.Stacks), 0o644)
 		} else {
 			infra = append(infra, "stall ("+st.Class+"): a bubble froze in real time; goroutine dump in the child's output")
 			os.WriteFile(filepath.Join(verifDir, ".work", "last-stall.txt"), []byte(st.Stacks), 0o644)
@@ -732,6 +740,13 @@ func cmdCheck(prop string, args []string) {
 	for k, n := range otherProps {
 		fmt.Printf("vcheck: note: %d run(s) hit a violation of another property (%s); its own check reports it\n", n, k)
 	}
+	if artefacts > 0 {
+		fmt.Printf("vcheck: %d run(s) abandoned: bubble frozen by the synctest/mutex artefact (not a verdict)\n", artefacts)
+		if artefacts > 3+total.runs/20000 {
+			infra = append(infra, fmt.Sprintf("%d runs abandoned because of the synctest/mutex artefact: too many for %d runs", artefacts, total.runs))
+		}
+	}
+	total.probes["harness.runs-abandoned-synctest-mutex-artefact"] += artefacts
 	writeEvidence(prop, spec, *tier, *seed, total, perScen, nviol, time.Since(start))
 	if len(infra) > 0 {
 		sort.Strings(infra)
